@@ -147,8 +147,20 @@ def make_pair(rng, k):
     if kind == 'resurfaced' or rng.random() < 0.35:
         if S.num_layers > 2:
             desc['surf_s'] = geos.set_surfaces(S, rng, rng.choice(['inside', 'boundary', 'mixed']), frac=0.6)
+            # ... and then snapped to the layer structure with the library's own methods, as the user guide suggests
+            # before a transfer (whatever they leave in the columns is what the mapping works from)
+            how = rng.choice([None, None, 'nearest', 'nearest', 'thin'])
+            if how == 'nearest':
+                S.snap_columns_to_nearest_layers()
+            elif how == 'thin':
+                S.snap_columns_to_layers(min(l.thickness for l in S.layerlist[1:]) * 0.6)
+            if how:
+                desc['snap_s'] = how
         if T.num_layers > 2 and rng.random() < 0.5:
             desc['surf_t'] = geos.set_surfaces(T, rng, rng.choice(['inside', 'mixed']), frac=0.5)
+            if rng.random() < 0.4:
+                T.snap_columns_to_nearest_layers()
+                desc['snap_t'] = 'nearest'
     return S, T, desc
 
 
@@ -394,20 +406,60 @@ def check_model_transfer(ctx, S, case):
         keys.add((g.block, g.name))
         src.add_generator(g)
     preserve = rng.random() < 0.5
-    case = dict(case, generators=[(g.block, g.name, g.type, g.gx, g.ltab) for g in src.generatorlist], preserve_totals=preserve)
+    rename = rng.random() < 0.4
+    # what else travels with the model: the block printed at every step, initial conditions held in the data object, and
+    # - optionally - an initial conditions file transferred on the way
+    src.parameter['print_block'] = rng.choice(under) if rng.random() < 0.6 else None
+    for b in rng.sample(under, min(len(under), rng.randint(0, 3))):
+        src.incon[b] = [None, [round(rng.uniform(1e5, 1e7), 1), round(rng.uniform(10, 300), 2)]]
+    with_file = rng.random() < 0.5 and S.convention == 0     # (names of the other conventions need check_blocknames=False, which this route cannot pass on)
+    kw = {}
+    if with_file:
+        import os
+        fin, fout = os.path.join(ctx.tmp, 'c19_src.incon'), os.path.join(ctx.tmp, 'c19_new.incon')
+        inc0 = make_incon(rng, S, 2)
+        inc0.write(fin)
+        kw = {'sourceinconfilename': fin, 'inconfilename': fout}
+    case = dict(case, generators=[(g.block, g.name, g.type, g.gx, g.ltab) for g in src.generatorlist], preserve_totals=preserve,
+                rename_generators=rename, print_block=src.parameter['print_block'], incon_blocks=sorted(src.incon), incon_file=with_file)
     new = t2d.t2data()
+    if rng.random() < 0.25:
+        # no generators declared as belonging to the top or bottom of the model (the default): all are kept block by block
+        cats_top, cats_bot = [], []
+        case['no_top_bottom_lists'] = True
+    else:
+        kw.update(top_generator=cats_top, bottom_generator=cats_bot)
     with ctx.guard(case, where='model-transfer') as gd:
-        new.transfer_from(src, S, geo2, top_generator=cats_top, bottom_generator=cats_bot, preserve_generation_totals=preserve)
+        new.transfer_from(src, S, geo2, preserve_generation_totals=preserve, rename_generators=rename, **kw)
     if gd.raised is not None:
         return
     ctx.evaluated()
     ctx.count('model_transfers')
+    ctx.see('model_transfer_options', 'rename=%s incon-file=%s print-block=%s' % (rename, with_file, src.parameter['print_block'] is not None))
+    if new.parameter['print_block'] != src.parameter['print_block']:
+        ctx.violation('model-transfer:print-block', 'identity transfer turned the print block %r into %r' % (src.parameter['print_block'], new.parameter['print_block']), case)
+    if sorted(new.incon) != sorted(src.incon) or any(new.incon[k][1] != src.incon[k][1] for k in src.incon):
+        ctx.violation('model-transfer:incon-section', 'initial conditions held in the model for %r arrive as %r' % (sorted(src.incon), sorted(new.incon)), case)
+    if with_file:
+        with ctx.guard(case, where='model-transfer:incon-file') as gd2:
+            a, b = R.t2incons.t2incon(fin), R.t2incons.t2incon(fout)
+            ctx.count('model_transfers_with_incon_file')
+            va = [(x.block, [float(v) for v in x.variable]) for x in a]
+            vb = [(x.block, [float(v) for v in x.variable]) for x in b]
+            if va != vb:
+                k = next((i for i, (p, q) in enumerate(zip(va, vb)) if p != q), min(len(va), len(vb)))
+                ctx.violation('model-transfer:incon-file', 'identity transfer of the initial conditions file: %d states in, %d out; first difference %r vs %r' % (
+                    len(va), len(vb), va[k] if k < len(va) else None, vb[k] if k < len(vb) else None), case)
 
     def sig(d, cats):
         out = []
         for g in d.generatorlist:
             cat = S.layer_name(g.name)
             nm = cat if cat in cats else g.name
+            if rename and d is src and cat not in cats:
+                # documented renaming of the other generators: the layer part of the name stays, the column part becomes
+                # the column of the generator's block
+                nm = S.block_name(cat, S.column_name(g.block))
             out.append((g.block, nm, g.type, None if g.gx is None else round(g.gx, 9), g.ltab, tuple(round(x, 9) for x in g.rate),
                         tuple(g.time), tuple(g.enthalpy)))
         return sorted(out, key=repr)
@@ -450,6 +502,7 @@ def run_shard(ctx, spec):
         ctx.count('pairs')
         ctx.see('atmosphere_combination', combo)
         ctx.see('pair_kind', desc['kind'])
+        ctx.see('snapped', 'source' if desc.get('snap_s') else ('target' if desc.get('snap_t') else 'no'))
         ctx.see('layers_renamed', 'source' if desc.get('layers_renamed_s') else ('target' if desc.get('layers_renamed_t') else 'no'))
         check_mapping(ctx, S, T, case, combo)
         own = expected_mapping(ctx, S, T)
